@@ -1,8 +1,10 @@
 (* C08 — results do not depend on which evaluation path the compiler chose.
    Only statements; proofs in Proofs/C08_Paths.v. The paths (Model/C08_Paths.v) mirror
-   vm/thread.go, compiler/resolve.go, vm/int.go, vm/float.go after
+   vm/thread.go, compiler/resolve.go, vm/int.go, vm/float.go, value/value.go (XInts), value/small_int.go
+   and value/big_int.go (XInt helpers), value/exact_compare.go after
    fixes/C08-typed-float-opcodes.patch; IEEE arithmetic (farith fpow fcmp) and the Int->Float
-   conversion (i2f) are arbitrary: the equalities hold whatever they compute.
+   conversion (i2f) are arbitrary: the equalities hold whatever they compute; Int/Float comparisons
+   are the exact three-way comparison ifcmp3 on the bit pattern.
    right_ok o r: r is Int or Float for arithmetic/comparisons, Int for shifts and & | ^ &~. *)
 From Elk Require Import Base.GoSem Model.C06_Int Model.C08_Paths Proofs.C08_Paths.
 Open Scope Z_scope.
